@@ -21,6 +21,21 @@ Record uunit19 := {
 Definition unit_ids_ok (table : list (str * hkind)) (skeleton : str) (p : uunit19) : bool :=
   list_eqb str_eqb (t_unit_ids (lower_of (uu_lower p)) table (uu_rules p) (uu_skipped p) None (uu_code p) skeleton) (uu_out p).
 
+(* one FAILED example reported by the test-examples analysis (src/api/test_examples.rs): the matched rules with their unit
+   fields, the example's expected unit ids and the id of the rule under test, and what the crate reported: rule ids applied,
+   unit ids applied, unit ids not applied any more; [ut_loop]: the failure was reported for its redirect chain (then the
+   must-match verdict itself was "pass") *)
+Record utest19 := {
+  ut_rules19 : list urule; ut_skipped : option str; ut_code : option N; ut_lower : list (str * str);
+  ut_expected : list str; ut_id : str; ut_must_match : bool; ut_loop : bool;
+  ut_out_rules : list str; ut_out_units : list str; ut_out_gone : list str
+}.
+Definition test_example_ok (table : list (str * hkind)) (skeleton : str) (p : utest19) : bool :=
+  let '(t, gone, contains) := t_test_example (lower_of (ut_lower p)) table (ut_rules19 p) (ut_skipped p) None (ut_code p) skeleton (ut_expected p) (ut_id p) in
+  let fails := if ut_must_match p then negb (is_nil gone) || negb contains else contains in
+  list_eqb str_eqb (ut_get_rule_ids_applied t) (ut_out_rules p) && list_eqb str_eqb (ut_get_unit_ids_applied t) (ut_out_units p)
+  && list_eqb str_eqb gone (ut_out_gone p) && Bool.eqb fails (negb (ut_loop p)).
+
 (* the model of the analysis (RIO.Pipeline.analysis_of_rules) reproduces the reported response *)
 Definition pipe_ok (table : list (str * hkind)) (skeleton : str) (p : pipe19) : bool :=
   let r := analysis_of_rules (lower_of (p_lower p)) table (p_rules p) (p_skipped p) None (p_code p) skeleton in
@@ -36,6 +51,7 @@ Record case19 := {
   k_pipes : list pipe19;    (* the reported responses with the matched rules, for the pipeline model *)
   k_upipes : list upipe19;  (* the reported unit traces with the matched rules and their unit fields (RIO.C19UnitsRun) *)
   k_uunits : list uunit19;  (* the unit ids the unit-ids analysis stores on each example of each rule *)
+  k_utests : list utest19;  (* the failed examples the test-examples analysis reports *)
   k_has_chain : bool;
   k_max : N;                (* max_hops *)
   k_table : list (N * option (N * N) * bool * bool);   (* node, one hop (target, status), target outside the project domains, self loop *)
@@ -81,7 +97,7 @@ Definition chain_ok (c : case19) : bool :=
 Definition verdict19 (table : list (str * hkind)) (skeleton : str) (c : case19) : N :=
   (vbit ((negb (k_has_chain c) || (let '(h, e) := model_chain c in hops_eqb h (o_hops c) && N.eqb (err_code e) (o_err c)))
          && forallb (pipe_ok table skeleton) (k_pipes c) && forallb (unit_trace_ok table skeleton) (k_upipes c)
-         && forallb (unit_ids_ok table skeleton) (k_uunits c)) 1
+         && forallb (unit_ids_ok table skeleton) (k_uunits c) && forallb (test_example_ok table skeleton) (k_utests c)) 1
    + vbit (k_tests_same c && k_units_same c && k_explain_same c && k_impact_same c && k_pipeline_same c && (negb (k_has_chain c) || chain_ok c)) 4)%N.
 
 Definition spec_verdict19 (c : case19) : N :=
